@@ -197,6 +197,25 @@ pub fn run(ctx: &Ctx) -> i32 {
             }
         }
     });
+    // A7: every truncation point of long valid streams (a length field that promises more than
+    //     what is left, at every offset)
+    let fills = gen::es_e_patterns();
+    let lens = [120usize, 250, 251, 300, 520, 1000];
+    ctx.par((fills.len() * lens.len()) as u64, |c, w| {
+        let fill = &fills[c as usize / lens.len()];
+        let l = lens[c as usize % lens.len()];
+        w.label(|| format!("all truncations of a long stream, fill {:?} length {}", &fill[..1], l));
+        let input: Vec<u8> = fill.iter().cycle().take(l).cloned().collect();
+        for modes in [bridge::ALL_MODES, 0x21] {
+            let cfg = Cfg { modes, ..Cfg::plain() };
+            if let common::Enc::Ok(dm) = common::encode(&cfg, &input) {
+                let cw = dm.data_codewords().to_vec();
+                for p in 0..cw.len() {
+                    w.check(p as u64, || sdesc(&cw[..p]), |st| eval_stream(&cw[..p], st));
+                }
+            }
+        }
+    });
     // B: error correction on words around and beyond the radius
     let jobs = c09::jobs(ctx.tier);
     rs::run_jobs(ctx, &jobs, |job, _orig, recv, _info, w| {
@@ -269,7 +288,7 @@ pub fn run(ctx: &Ctx) -> i32 {
         "evaluations": ctx.evaluations(),
         "distinct_nontrivial": ctx.counter("nontrivial"),
         "rule": format!("decode_data + decode_str: all codeword strings of length <= 3 over all 256 values; length 4..={} over a 24-value class alphabet; all designators [241,a,b,c,66]; ECI 0..63 x every byte in ASCII/upper-shift and Base256 carriage; \
-every single-codeword replacement (24 class values) and every truncation of valid streams of the crate's encoder (sigma10 strings of length <= {} x 18 mode sets x FNC1), and the same at 13 positions of long valid streams (fills of up to 3119 bytes). decode_error: the RS families of C09 on all 48 sizes. \
+every single-codeword replacement (24 class values) and every truncation of valid streams of the crate's encoder (sigma10 strings of length <= {} x 18 mode sets x FNC1), and the same at 13 positions of long valid streams (fills of up to 3119 bytes); every truncation point of 108 long valid streams. decode_error: the RS families of C09 on all 48 sizes. \
 try_from_bits + DataMatrix::decode: (width, length) lattice 0..=150 x 0..=150 with uniform contents; every single (and neighbouring double) module flip of a valid symbol of every size; garbage contents under a valid finder. \
 Oracle: returns a value or an error - no panic (catch_unwind), no hang (watchdog). All cases are distinct by construction; non-trivial = the input is rejected with an error by at least one entry point (a genuinely malformed input that reached the error paths). Build profile of this pass: {}.",
             ctx.tier.pick(5, 6), ctx.tier.pick(3, 4), if cfg!(debug_assertions) { "release + debug-assertions + overflow-checks" } else { "plain release" }),
